@@ -1,10 +1,15 @@
 """C02  A granted placement has exactly the requested shape  (DESIGN 5 / C02)"""
 
 import ast
+import copy
 import re
+import types as _types
 
 from ..model import (walk, dotted, call_name, kwarg, unparse, short, UNKNOWN,
-                     root_name, AnalysisError, calls_in, stores_in_target)
+                     root_name, AnalysisError, calls_in, stores_in_target,
+                     FuncInfo)
+from ..normalize import Inliner as _Inliner, _count_stmts
+from ..canon import canonicalize as _canonicalize
 from ..cfg import cfg_of
 from ..flow import Deps, guards, must_pass, loop_slice, reaching_defs
 from .. import idioms as I
@@ -437,6 +442,109 @@ def check_chunk(prog, rep, rid, K, f, g, c, appends, res):
 
 
 # ------------------------------------------------------------------------------
+# R02.1 / R02.11  count discipline of one pick site
+#
+def check_pick(rep, rid, kname, f, g, P, call, kind, A, done, recv, kill=()):
+    """count discipline of one pick `recv.append(..)` (cfg node P) whose list
+    goes into the slot completed at the cfg nodes A: (a) the slot is completed
+    only past a "count reached" test, (a') all count tests on the way use one
+    bound, (b) picking stops when the count is reached.  `kill`: cfg nodes
+    behind which the list picked into no longer is what arrives in the slot
+    (the slot's variable is bound to something else).  Returns the count tests
+    [(node, reached label)] that lie between this pick and the slot"""
+    rroot = root_name(call.func.value)
+    counted = {'len:' + recv}
+    cts = count_tests(g, counted)
+    # creation of a fresh receiver (new slot)
+    creators = set()
+    for n in g.stmt_nodes():
+        if n.kind == 'stmt' and isinstance(n.ast, ast.Assign) and any(
+                isinstance(t, ast.Name) and t.id == rroot
+                for t in n.ast.targets):
+            creators.add(n.id)
+    if not cts:
+        raise AnalysisError('UNRECOGNISED-IDIOM %s: no count test on '
+                            'len(%s) found' % (f.where, recv))
+    bad_op = [n for n, lab in cts if lab is None]
+    for n in bad_op:
+        rep.bad(rid, f, n.ast, '%s: the count of picked %s is compared '
+                'with an operator that does not separate "reached" '
+                'from "short": `%s`' % (kname, kind, short(n.ast, 60)),
+                f.loc(n.ast),
+                history='a rank is granted fewer (or more) %s than '
+                'requested' % kind)
+    reached = [(n.id, lab) for n, lab in cts if lab]
+    # (a) from the pick to the append of the slot, a "reached" edge
+    #     must be taken
+    ra = set()
+    for e in g.succ[P.id]:
+        if e.label != 'exc':
+            ra |= g.reachable(e.dst, skip_nodes=creators | set(kill),
+                              skip_edges=reached)
+    oka = not (set(A) & ra)
+    rep.check(oka, rid, f,
+              '%s: after picking into %s the slot is appended only '
+              'past a "count reached" test' % (kname, recv),
+              construct='%s:%s:append-short' % (kname, recv),
+              message='%s: a slot can be appended although len(%s) has '
+              'not reached the requested number: a path from the pick '
+              'to %s avoids every count test' % (kname, recv, done),
+              loc=f.loc(call),
+              history='node with 1 free core, request of 2 cores per '
+              'rank: the rank is granted a slot with 1 core')
+    # (a') all count tests met between this pick and the append of
+    #      its slot compare with the same bound expression
+    seen = set()
+    for e in g.succ[P.id]:
+        if e.label != 'exc':
+            seen |= g.reachable(e.dst,
+                                skip_nodes=creators | set(A) | set(kill))
+    bounds = {}
+    for n, lab in cts:
+        if n.id in seen:
+            c = n.ast
+            b = c.comparators[0] if _len_of(c.left) else c.left
+            bounds.setdefault(unparse(b), n)
+    rep.check(len(bounds) <= 1, rid, f,
+              '%s: the count tests on len(%s) use one bound (%s)'
+              % (kname, recv, ', '.join(sorted(bounds)) or '-'),
+              construct='%s:%s:bounds' % (kname, recv),
+              message='%s: the count of picked %s is compared with '
+              'different bounds (%s): the stop test and the "short" '
+              'test disagree about the requested number'
+              % (kname, kind, ', '.join(sorted(bounds))),
+              loc=f.loc(call),
+              history='request of 2 cores per rank on a node with 1 '
+              'free core: the rank is granted a slot with 1 core')
+    # (b) from a pick back to the same pick (same receiver object) a
+    #     count test is evaluated, and its "reached" edge leaves the
+    #     pick loop
+    tests = {n.id for n, lab in cts}
+    rb = set()
+    for e in g.succ[P.id]:
+        if e.label != 'exc':
+            rb |= g.reachable(e.dst, skip_nodes=creators | tests)
+    okb = P.id not in rb
+    if okb:
+        for nid, lab in reached:
+            for e in g.succ[nid]:
+                if e.label == lab:
+                    if P.id in g.reachable(e.dst, skip_nodes=creators):
+                        okb = False
+    rep.check(okb, rid, f,
+              '%s: picking into %s stops when the requested number is '
+              'reached' % (kname, recv),
+              construct='%s:%s:pick-more' % (kname, recv),
+              message='%s: picking into %s can continue after the '
+              'requested number is reached (no count test between two '
+              'picks, or its "reached" edge leads back to the pick)'
+              % (kname, recv), loc=f.loc(call),
+              history='request of 1 core per rank on a node with 4 '
+              'free cores: the rank is granted all 4')
+    return [(n, lab) for n, lab in cts if n.id in seen]
+
+
+# ------------------------------------------------------------------------------
 # R02.1  count discipline of the per-node search
 #
 def r02_1(prog, rep, rid='R02.1'):
@@ -466,95 +574,8 @@ def r02_1(prog, rep, rid='R02.1'):
                            K.name, short(call, 40), kind),
                        f.loc(call))
                 continue
-            rroot = root_name(call.func.value)
-            counted = {'len:' + recv}
-            cts = count_tests(g, counted)
-            # creation of a fresh receiver (new slot)
-            creators = set()
-            for n in g.stmt_nodes():
-                if n.kind == 'stmt' and isinstance(n.ast, ast.Assign) and any(
-                        isinstance(t, ast.Name) and t.id == rroot
-                        for t in n.ast.targets):
-                    creators.add(n.id)
-            if not cts:
-                raise AnalysisError('UNRECOGNISED-IDIOM %s: no count test on '
-                                    'len(%s) found' % (f.where, recv))
-            bad_op = [n for n, lab in cts if lab is None]
-            for n in bad_op:
-                rep.bad(rid, f, n.ast, '%s: the count of picked %s is compared '
-                        'with an operator that does not separate "reached" '
-                        'from "short": `%s`' % (K.name, kind, short(n.ast, 60)),
-                        f.loc(n.ast),
-                        history='a rank is granted fewer (or more) %s than '
-                        'requested' % kind)
-            reached = [(n.id, lab) for n, lab in cts if lab]
-            # (a) from the pick to the append of the slot, a "reached" edge
-            #     must be taken
-            ra = set()
-            for e in g.succ[P.id]:
-                if e.label != 'exc':
-                    ra |= g.reachable(e.dst, skip_nodes=creators,
-                                      skip_edges=reached)
-            oka = not (set(A) & ra)
-            rep.check(oka, rid, f,
-                      '%s: after picking into %s the slot is appended only '
-                      'past a "count reached" test' % (K.name, recv),
-                      construct='%s:%s:append-short' % (K.name, recv),
-                      message='%s: a slot can be appended although len(%s) has '
-                      'not reached the requested number: a path from the pick '
-                      'to %s.append avoids every count test' % (K.name, recv,
-                                                                res),
-                      loc=f.loc(call),
-                      history='node with 1 free core, request of 2 cores per '
-                      'rank: the rank is granted a slot with 1 core')
-            # (a') all count tests met between this pick and the append of
-            #      its slot compare with the same bound expression
-            seen = set()
-            for e in g.succ[P.id]:
-                if e.label != 'exc':
-                    seen |= g.reachable(e.dst, skip_nodes=creators | set(A))
-            bounds = {}
-            for n, lab in cts:
-                if n.id in seen:
-                    c = n.ast
-                    b = c.comparators[0] if _len_of(c.left) else c.left
-                    bounds.setdefault(unparse(b), n)
-            rep.check(len(bounds) <= 1, rid, f,
-                      '%s: the count tests on len(%s) use one bound (%s)'
-                      % (K.name, recv, ', '.join(sorted(bounds)) or '-'),
-                      construct='%s:%s:bounds' % (K.name, recv),
-                      message='%s: the count of picked %s is compared with '
-                      'different bounds (%s): the stop test and the "short" '
-                      'test disagree about the requested number'
-                      % (K.name, kind, ', '.join(sorted(bounds))),
-                      loc=f.loc(call),
-                      history='request of 2 cores per rank on a node with 1 '
-                      'free core: the rank is granted a slot with 1 core')
-            # (b) from a pick back to the same pick (same receiver object) a
-            #     count test is evaluated, and its "reached" edge leaves the
-            #     pick loop
-            tests = {n.id for n, lab in cts}
-            rb = set()
-            for e in g.succ[P.id]:
-                if e.label != 'exc':
-                    rb |= g.reachable(e.dst, skip_nodes=creators | tests)
-            okb = P.id not in rb
-            if okb:
-                for nid, lab in reached:
-                    for e in g.succ[nid]:
-                        if e.label == lab:
-                            if P.id in g.reachable(e.dst, skip_nodes=creators):
-                                okb = False
-            rep.check(okb, rid, f,
-                      '%s: picking into %s stops when the requested number is '
-                      'reached' % (K.name, recv),
-                      construct='%s:%s:pick-more' % (K.name, recv),
-                      message='%s: picking into %s can continue after the '
-                      'requested number is reached (no count test between two '
-                      'picks, or its "reached" edge leads back to the pick)'
-                      % (K.name, recv), loc=f.loc(call),
-                      history='request of 1 core per rank on a node with 4 '
-                      'free cores: the rank is granted all 4')
+            check_pick(rep, rid, K.name, f, g, P, call, kind, A,
+                       '%s.append' % res, recv)
         # (c) fewer than n_slots only when partial
         rets = [n for n in g.stmt_nodes() if n.kind == 'stmt' and
                 isinstance(n.ast, ast.Return) and isinstance(n.ast.value,
@@ -597,12 +618,362 @@ def r02_1(prog, rep, rid='R02.1'):
 
 
 # ------------------------------------------------------------------------------
+# R02.11  the application-level slot finder (resource_config.Node.find_slot)
+#         is the sibling of _find_resources: the same count discipline, and
+#         every part of the slot is sized / fed by the field of the request
+#         that belongs to it
+#
+_RR_COUNT = {'cores': 'n_cores', 'gpus': 'n_gpus'}
+_RR_SHARE = {'cores': 'core_occupation', 'gpus': 'gpu_occupation'}
+_SLOT_FED = {'lfs': ('rr', 'lfs'), 'mem': ('rr', 'mem'),
+             'node_index': ('self', 'index'), 'node_name': ('self', 'name')}
+NODE_CLS = ('resource_config.py', 'Node')
+
+
+def _slot_picks(f, g, smap, made):
+    """[(cfg node, append call, kind, kill)]: `<name>.append(..)` calls whose
+    list - the very object, followed through the definitions that reach the
+    sites - is what `Slot(<kind>=<name>)` receives.  kill = the definitions of
+    the slot's variable that bind something other than this list"""
+    out = []
+    for c in calls_in(f.node):
+        if not (isinstance(c.func, ast.Attribute) and c.func.attr == 'append'
+                and isinstance(c.func.value, ast.Name) and id(c) in smap):
+            continue
+        P = smap[id(c)]
+        mine = origin(g, c.func.value.id, P.id)
+        for sc in made:
+            at = smap[id(sc)]
+            for kw in sc.keywords:
+                if kw.arg not in _RR_COUNT:
+                    continue
+                if not isinstance(kw.value, ast.Name):
+                    raise AnalysisError(
+                        'UNRECOGNISED-IDIOM %s: Slot(%s=) is given an '
+                        'expression, not a local list' % (f.where, kw.arg))
+                if not (mine & origin(g, kw.value.id, at.id)):
+                    continue
+                kill = set()
+                for n, v in reaching_defs(g, kw.value.id, at.id):
+                    o = origin(g, v.id, n.id) if isinstance(v, ast.Name) \
+                        else {n.id}
+                    if not (o & mine):
+                        kill.add(n.id)
+                out.append((P, c, kw.arg, kill))
+    return out
+
+
+def r02_11(prog, rep, rid='R02.11'):
+    rep.rule(rid, 'Node.find_slot: the cores / gpus of the slot are picked '
+             'from the matching pool of the node, counted against the '
+             'matching field of the request (n_cores / n_gpus) and nothing '
+             'else, with the share the request names for them; lfs, mem and '
+             'the node identity of the slot are the request\'s and the '
+             'node\'s own', minimum=16)
+    K = prog.cls(*NODE_CLS)
+    f = prog.find_method(K, 'find_slot')
+    if f is None:
+        raise AnalysisError('Node.find_slot not found')
+    rep.saw(f)
+    params = [p for p in f.params if p != 'self']
+    stores = {x.id for x in walk(f.node) if isinstance(x, ast.Name) and
+              isinstance(x.ctx, ast.Store)}
+    if len(params) != 1 or params[0] in stores:
+        raise AnalysisError('UNRECOGNISED-IDIOM %s: expected one request '
+                            'parameter that is never re-bound' % f.where)
+    rr = params[0]
+    g = cfg_of(f)
+    smap = I.stmt_node_map(g)
+    d = Deps(f.node)
+    ed = Deps(f.node, implicit=False)
+    made = [c for c in calls_in(f.node) if dotted(c.func) == 'Slot' and
+            id(c) in smap and any(k.arg in _RR_COUNT for k in c.keywords)]
+    if not made:
+        raise AnalysisError('UNRECOGNISED-IDIOM %s: no Slot(cores=.., gpus=..) '
+                            'is built' % f.where)
+    A = [smap[id(c)].id for c in made]
+    picks = _slot_picks(f, g, smap, made)
+    for kind in sorted(_RR_COUNT):
+        if not any(k == kind for P, c, k, kill in picks):
+            raise AnalysisError('UNRECOGNISED-IDIOM %s: no pick of %s found '
+                                '(<list>.append whose list becomes Slot(%s=))'
+                                % (f.where, kind, kind))
+
+    def fed_by(e, want, others):
+        """explicit data flow only: e derives from `want` and from none of
+        `others`"""
+        dep = ed.expr_depends(e)
+        return want in dep and not (set(others) & dep)
+
+    for P, call, kind, kill in picks:
+        recv = unparse(call.func.value)
+        want = '%s.%s' % (rr, _RR_COUNT[kind])
+        cts = check_pick(rep, rid, 'Node.find_slot', f, g, P, call, kind, A,
+                         'Slot(..)', recv, kill=kill)
+        # the bound of every count test on the list is the request field of
+        # this kind
+        for n, lab in cts:
+            c = n.ast
+            b = c.comparators[0] if _len_of(c.left) else c.left
+            rep.check(fed_by(b, want, ['%s.%s' % (rr, v) for k, v in
+                                       _RR_COUNT.items() if k != kind]),
+                      rid, f,
+                      'Node.find_slot: `%s` counts the %s against %s'
+                      % (short(c, 40), kind, want),
+                      construct='find_slot:%s:bound:%s' % (
+                          kind, 'stop' if P.loops and P.loops[-1] in n.loops
+                          else 'short'),
+                      message='Node.find_slot: the number of %s picked for a '
+                      'rank (len(%s)) is compared with `%s` in `%s`; the '
+                      'number of %s a rank asks for is %s, so the rank is '
+                      'granted as many %s as that other field says'
+                      % (kind, recv, short(b, 40), short(c, 50), kind, want,
+                         kind), loc=f.loc(c),
+                      history='NodeList.find_slots(RankRequirements(n_cores=3, '
+                      'n_gpus=1), n_slots=2) on nodes with 8 cores and 4 '
+                      'GPUs: every rank is granted 3 GPUs; with n_cores=1, '
+                      'n_gpus=2 the ranks get 1 GPU or the request is never '
+                      'granted')
+        # picked from the pool of this kind
+        loops = [g.nodes[h] for h in P.loops if g.nodes[h].kind == 'for']
+        if not loops:
+            raise AnalysisError('UNRECOGNISED-IDIOM %s: `%s` is not in a loop '
+                                'over a pool of the node' % (f.where,
+                                                             short(call, 50)))
+        H = loops[-1]
+        pool = ed.expr_depends(H.ast.iter)
+        others = {'self.' + k for k in _RR_COUNT if k != kind}
+        rep.check('self.' + kind in pool and not (others & pool), rid, f,
+                  'Node.find_slot: the %s of the slot are picked from '
+                  'self.%s' % (kind, kind),
+                  construct='find_slot:%s:pool' % kind,
+                  message='Node.find_slot: the %s of the slot are picked in a '
+                  'loop over `%s`, not over self.%s: the indices do not name '
+                  '%s of the node' % (kind, short(H.ast.iter, 40), kind, kind),
+                  loc=f.loc(H.ast),
+                  history='find_slot(RankRequirements(n_cores=1, n_gpus=1)) '
+                  'on a node with 8 cores and 2 GPUs: the slot names GPU '
+                  'index 5')
+        # each picked entry carries the share asked for this kind
+        share = None
+        if call.args:
+            entry = _hoisted(g, call.args[0], P.id)[0]
+            if isinstance(entry, ast.Call):
+                share = kwarg(entry, 'occupation')
+        if share is None:
+            raise AnalysisError('UNRECOGNISED-IDIOM %s: `%s` does not append '
+                                'RO(.., occupation=..)' % (f.where,
+                                                           short(call, 50)))
+        dep = ed.expr_depends(share)
+        wants = '%s.%s' % (rr, _RR_SHARE[kind])
+        others = {'%s.%s' % (rr, v) for k, v in _RR_SHARE.items()
+                  if k != kind}
+        rep.check(wants in dep and not (others & dep), rid, f,
+                  'Node.find_slot: picked %s carry the share %s'
+                  % (kind, wants), construct='find_slot:%s:share' % kind,
+                  message='Node.find_slot: the %s of the slot are entered '
+                  'with occupation `%s`, the request asks for %s'
+                  % (kind, short(share, 40), wants), loc=f.loc(call),
+                  history='RankRequirements(n_gpus=1, gpu_occupation=0.5, '
+                  'core_occupation=1.0): the rank holds a whole GPU')
+    for c in made:
+        for kw in c.keywords:
+            if kw.arg not in _SLOT_FED:
+                continue
+            base, attr = _SLOT_FED[kw.arg]
+            base = rr if base == 'rr' else base
+            others = ['%s.%s' % (rr if b2 == 'rr' else b2, a2)
+                      for k2, (b2, a2) in _SLOT_FED.items() if k2 != kw.arg]
+            rep.check(fed_by(kw.value, '%s.%s' % (base, attr), others),
+                      rid, f,
+                      'Node.find_slot: Slot(%s=) is %s.%s' % (kw.arg, base,
+                                                              attr),
+                      construct='find_slot:slot:%s' % kw.arg,
+                      message='Node.find_slot builds the slot with %s=`%s`; '
+                      'the granted %s must be %s.%s' % (
+                          kw.arg, short(kw.value, 40), kw.arg, base, attr),
+                      loc=f.loc(c),
+                      history='find_slot(RankRequirements(n_cores=1, lfs=10, '
+                      'mem=20)): the slot (and the debit of the node) carries '
+                      'a different %s than was asked for' % kw.arg)
+
+
+# ------------------------------------------------------------------------------
+# local closures.  A nested `def` that is only ever called by its plain name
+# from the body of the enclosing method reads the enclosing locals at call
+# time: replacing each call by the body (parameters substituted, the
+# closure's own locals renamed) is exact.  The engine inlines freshly
+# extracted *methods* in the normalised views but leaves nested functions
+# alone, so the rules about schedule_task look at this flattened form.
+#
+class _Closures(_Inliner):
+
+    def __init__(self, prog, outer):
+        _Inliner.__init__(self, prog, {})
+        self.outer = outer
+        self.left = set()             # closures with a use that stays
+
+    def callee(self, finfo, call):
+        if not isinstance(call.func, ast.Name):
+            return None
+        info = self.outer.nested.get(call.func.id)
+        if info is None or call.func.id in self.left:
+            return None
+        fn = info.node
+        a = fn.args
+        if not isinstance(fn, ast.FunctionDef) or fn.decorator_list or \
+                a.vararg or a.kwarg or a.kwonlyargs or a.posonlyargs or \
+                a.defaults:
+            return None
+        for x in ast.walk(fn):
+            if isinstance(x, (ast.Yield, ast.YieldFrom, ast.Await, ast.Global,
+                              ast.Nonlocal, ast.Lambda)):
+                return None
+            if x is not fn and isinstance(x, (ast.FunctionDef, ast.ClassDef,
+                                              ast.AsyncFunctionDef)):
+                return None
+            if isinstance(x, ast.Name) and x.id == fn.name:
+                return None                                     # recursion
+        if _count_stmts(fn.body) > 40:
+            return None
+        return _types.SimpleNamespace(name=fn.name, node=fn, cls=None)
+
+
+def flat_closures(prog, f):
+    """FuncInfo of `f` with its local closures inlined (a copy; `f` itself if
+    it has none, or if one of them cannot be removed completely)"""
+    if not f.nested:
+        return f
+    cached = getattr(f, '_c02_flat', None)
+    if cached is not None:
+        return cached
+    out = f
+    f2 = FuncInfo(f.name, f.qual, f.module, f.cls, copy.deepcopy(f.node),
+                  parent=f.parent)
+    top = {s.name for s in f2.node.body if isinstance(s, ast.FunctionDef)}
+    stores = {x.id for x in ast.walk(f2.node) if isinstance(x, ast.Name)
+              and isinstance(x.ctx, (ast.Store, ast.Del))} | set(f2.params)
+    # only closures defined once, unconditionally, at the top level of the
+    # body and never re-bound
+    inl = _Closures(prog, f2)
+    n_defs = {}
+    for x in ast.walk(f2.node):
+        if x is not f2.node and isinstance(x, (ast.FunctionDef,
+                                               ast.AsyncFunctionDef)):
+            n_defs[x.name] = n_defs.get(x.name, 0) + 1
+    inl.left = {n for n in f2.nested
+                if n not in top or n in stores or n_defs.get(n) != 1}
+    # the definition precedes every use
+    for s in f2.node.body:
+        if isinstance(s, ast.FunctionDef) and s.name not in inl.left:
+            for x in ast.walk(f2.node):
+                if isinstance(x, ast.Name) and x.id == s.name and \
+                        x.lineno <= s.lineno:
+                    inl.left.add(s.name)
+    if len(inl.left) < len(f2.nested) and inl.run_function(f2):
+        gone = []
+        for name in f2.nested:
+            if name in inl.left:
+                continue
+            used = any(isinstance(x, ast.Name) and x.id == name
+                       for s in f2.node.body
+                       if not (isinstance(s, ast.FunctionDef) and
+                               s.name == name)
+                       for x in ast.walk(s))
+            if used:
+                # a use that could not be replaced: keep the tree as it is
+                gone = None
+                break
+            gone.append(name)
+        if gone:
+            f2.node.body = [s for s in f2.node.body
+                            if not (isinstance(s, ast.FunctionDef) and
+                                    s.name in gone)]
+            _canonicalize(ast.Module(body=[f2.node], type_ignores=[]))
+            out = FuncInfo(f.name, f.qual, f.module, f.cls, f2.node,
+                           parent=f.parent)
+    try:
+        f._c02_flat = out
+    except Exception:                                           # noqa
+        pass
+    return out
+
+
+# ------------------------------------------------------------------------------
+# the colocate history tests of the node loop, by meaning:
+#   "the tag is known"   `T in self._colo_history`  /  `H is [not] None` where
+#                        H is `self._colo_history.get(T)`
+#   "the node is listed" `<x> in H` where H is `self._colo_history[T]` or the
+#                        result of `.get(T)`
+# H may be a local that holds the lookup (single reaching definition).
+#
+_HIST = 'self._colo_history'
+
+
+def _same_value(g, e1, at1, e2, at2):
+    """both expressions (hoisted locals followed) are the same term over the
+    same definitions"""
+    a, p = _hoisted(g, e1, at1)
+    b, q = _hoisted(g, e2, at2)
+    return unparse(a) == unparse(b) and _same_binding(g, a, p, q)
+
+
+def _hist_lookup(g, e, at):
+    """(tag expr, 'item' | 'get') if the value of `e` at cfg node `at` is the
+    history entry of a tag"""
+    e, at = _hoisted(g, e, at)
+    if isinstance(e, ast.Subscript) and unparse(e.value) == _HIST and \
+            not isinstance(e.slice, ast.Slice):
+        return e.slice, 'item'
+    if isinstance(e, ast.Call) and isinstance(e.func, ast.Attribute) and \
+            e.func.attr == 'get' and unparse(e.func.value) == _HIST and \
+            e.args and not e.keywords and (
+                len(e.args) == 1 or (
+                    len(e.args) == 2 and isinstance(e.args[1], ast.Constant)
+                    and e.args[1].value is None)):
+        return e.args[0], 'get'
+    return None
+
+
+def history_tests(g, F):
+    """(known, member, other) over the tests of the node loop of cfg node F:
+    known  = [(test node, label taken when the tag is in the history, tag)]
+    member = [(test node, label taken when the node is listed, left operand,
+               tag)]
+    other  = membership tests on something else (for the message)"""
+    known, member, other = [], [], []
+    for n in g.nodes:
+        if n.kind != 'test' or not isinstance(n.ast, ast.Compare) or \
+                len(n.ast.ops) != 1 or n.loops != F.loops:
+            continue
+        op, l, r = n.ast.ops[0], n.ast.left, n.ast.comparators[0]
+        if isinstance(op, (ast.In, ast.NotIn)):
+            lab = 'T' if isinstance(op, ast.In) else 'F'
+            if unparse(r) == _HIST:
+                known.append((n, lab, l))
+                continue
+            h = _hist_lookup(g, r, n.id)
+            if h is not None:
+                member.append((n, lab, l, h[0]))
+            else:
+                other.append(n)
+        elif isinstance(op, (ast.Is, ast.IsNot)) and \
+                isinstance(r, ast.Constant) and r.value is None:
+            h = _hist_lookup(g, l, n.id)
+            if h is not None and h[1] == 'get':
+                known.append((n, 'T' if isinstance(op, ast.IsNot) else 'F',
+                              h[0]))
+    return known, member, other
+
+
+# ------------------------------------------------------------------------------
 # R02.2  paired bookkeeping in schedule_task
 #
 def sched_info(prog, K):
     f = prog.find_method(K, 'schedule_task')
     if f is None:
         raise AnalysisError('%s.schedule_task missing' % K.name)
+    f = flat_closures(prog, f)
     g = cfg_of(f)
     smap = I.stmt_node_map(g)
     find_call = None
@@ -932,44 +1303,47 @@ def r02_5(prog, rep, rid='R02.5'):
         f, g, smap, rem, alc, X, dec, ext, find_call = sched_info(prog, K)
         d = Deps(f.node)
         F = smap[id(find_call)]
-        known, member = [], []
-        for n in g.nodes:
-            if n.kind != 'test' or not isinstance(n.ast, ast.Compare) or \
-                    len(n.ast.ops) != 1:
-                continue
-            op, l, r = n.ast.ops[0], n.ast.left, n.ast.comparators[0]
-            if isinstance(op, (ast.In, ast.NotIn)) and \
-                    unparse(r) == 'self._colo_history' and n.loops == F.loops:
-                known.append((n, 'T' if isinstance(op, ast.In) else 'F'))
-            if isinstance(op, (ast.In, ast.NotIn)) and \
-                    unparse(r).startswith('self._colo_history[') and \
-                    n.loops == F.loops:
-                member.append((n, 'T' if isinstance(op, ast.In) else 'F',
-                               unparse(l)))
-        if not known or not member:
-            raise AnalysisError('UNRECOGNISED-IDIOM %s: colocate history tests '
-                                'not found in the node loop' % f.where)
-        for kn, klab in known:
+        known, member, other = history_tests(g, F)
+        if not known:
+            raise AnalysisError('UNRECOGNISED-IDIOM %s: no test in the node '
+                                'loop asks whether the colocate tag is in '
+                                'self._colo_history' % f.where)
+        nodevars = set()
+        for h in F.loops:
+            if g.nodes[h].kind == 'for':
+                nodevars |= set(stores_in_target(g.nodes[h].ast.target))
+        for kn, klab, ktag in known:
             starts = [e.dst for e in g.succ[kn.id] if e.label == klab]
-            allowed = [(m.id, lab) for m, lab, _ in member]
+            # only a test of the history entry of THIS tag counts
+            mine = [(m, lab) for m, lab, left, mtag in member
+                    if _same_value(g, ktag, kn.id, mtag, m.id)]
+            allowed = [(m.id, lab) for m, lab in mine]
             r = set()
             for s in starts:
                 r |= g.reachable(s, skip_edges=allowed, no_back=True)
+            why = 'membership test missing or with the wrong polarity'
+            seen = [n for n in other if n.id in r] + \
+                   [m for m, lab, left, mtag in member
+                    if m.id in r and (m, lab) not in mine]
+            if not mine and seen:
+                why = 'on the way the node is only looked up in %s, not in ' \
+                      'the history entry of the tag, self._colo_history[%s]' \
+                      % (', '.join(sorted({'`%s`' % short(
+                          n.ast.comparators[0], 40) for n in seen})),
+                         unparse(ktag))
             rep.check(F.id not in r, rid, f,
                       '%s: with the tag in the history the node is searched '
                       'only if its index is recorded for the tag' % K.name,
                       construct='%s:colo-skip' % K.name,
                       message='%s: a node not recorded for a known colocate '
-                      'tag can reach the per-node search (membership test '
-                      'missing or with the wrong polarity)' % K.name,
+                      'tag can reach the per-node search (%s)' % (K.name, why),
                       loc=f.loc(kn.ast),
-                      history='task 1 with colocate tag t runs on node 3; '
-                      'task 2 with tag t is placed on node 0')
-        for m, lab, left in member:
-            nodevars = set()
-            for h in F.loops:
-                if g.nodes[h].kind == 'for':
-                    nodevars |= set(stores_in_target(g.nodes[h].ast.target))
+                      history='3 nodes of 2 cores; A (tag t1, 2 cores) fills '
+                      'node 0, B (tag t2, 2 cores) runs on node 1 and is '
+                      'released, C (tag t1, 2 cores) arrives while node 0 is '
+                      'full: C is placed on node 1 although t1 was used on '
+                      'node 0 only')
+        for m, lab, left, mtag in member:
             dep = d.expr_depends(m.ast.left)
             idx_ok = any("%s['index']" % v in dep or v in dep
                          for v in nodevars)
@@ -1398,15 +1772,7 @@ def colo_sites(prog, K):
     record a placement"""
     f, g, smap, rem, alc, X, dec, ext, find_call = sched_info(prog, K)
     F = smap[id(find_call)]
-    known = []
-    for n in g.nodes:
-        if n.kind != 'test' or not isinstance(n.ast, ast.Compare) or \
-                len(n.ast.ops) != 1:
-            continue
-        op, r = n.ast.ops[0], n.ast.comparators[0]
-        if isinstance(op, (ast.In, ast.NotIn)) and \
-                unparse(r) == 'self._colo_history' and n.loops == F.loops:
-            known.append(n)
+    known = [(n, tag) for n, lab, tag in history_tests(g, F)[0]]
     d = Deps(f.node)
     writes = []
     for kind, target, stmt in I.stores(f.node):
@@ -1433,10 +1799,10 @@ def r02_6(prog, rep, rid='R02.6'):
                                 '(`tag in self._colo_history` in the node '
                                 'loop) or the recording history write not '
                                 'found' % f.where)
-        tags = {unparse(n.ast.left) for n in known} | \
+        tags = {unparse(tag) for n, tag in known} | \
                {unparse(t.slice) for w, t in writes}
-        if len(tags) != 1 or not all(isinstance(n.ast.left, ast.Name)
-                                     for n in known):
+        if len(tags) != 1 or not all(isinstance(tag, ast.Name)
+                                     for n, tag in known):
             raise AnalysisError('UNRECOGNISED-IDIOM %s: the colocate filter '
                                 'and the history write do not use one local '
                                 'name as the tag (%s)' % (f.where,
@@ -1465,12 +1831,12 @@ def r02_6(prog, rep, rid='R02.6'):
                                 % f.where)
         dom = TagDomain(f, family)
         states, closure = tag_states(f, g, dom)
-        kids = {n.id for n in known}
+        kids = {n.id for n, tag in known}
         wids = {w.id for w, t in writes}
         kstates = [s for s in states if s[0] in kids]
         wstates = [s for s in states if s[0] in wids]
         wast = writes[0][0].ast
-        kast = known[0].ast
+        kast = known[0][0].ast
         # (A) filtered as a tag => can be recorded
         for c in _TAGS:
             ks = [s for s in kstates if s[1][0] == c]
@@ -1743,6 +2109,258 @@ def r02_10(prog, rep, rid='R02.10'):
 
 
 # ------------------------------------------------------------------------------
+# R02.12  "granted" means placed.  The callers of _try_allocation take a true
+# result as "the task has its placement" and push it to the executor.  The
+# per-rank limits of schedule_task reject a request by raising: whatever
+# happens in _try_allocation, a true result is returned only past the store
+# of the non-empty result of schedule_task as the slots of the task.
+#
+def _nonempty_edge(test, name):
+    """label of the out-edge of test expression `test` taken when the list
+    held by the plain name `name` is not empty / not None; None if the test
+    is not a test of that"""
+    a = test
+    if isinstance(a, ast.Name) and a.id == name:
+        return 'T'
+    if isinstance(a, ast.UnaryOp) and isinstance(a.op, ast.Not):
+        lab = _nonempty_edge(a.operand, name)
+        return {'T': 'F', 'F': 'T'}.get(lab)
+    if isinstance(a, ast.Compare) and len(a.ops) == 1:
+        l, r, op = a.left, a.comparators[0], a.ops[0]
+        if isinstance(l, ast.Name) and l.id == name and \
+                isinstance(r, ast.Constant) and r.value is None:
+            if isinstance(op, (ast.Is, ast.Eq)):
+                return 'F'
+            if isinstance(op, (ast.IsNot, ast.NotEq)):
+                return 'T'
+        if _len_of(l) == name and isinstance(r, ast.Constant) and \
+                r.value == 0 and not isinstance(r.value, bool):
+            return {ast.Gt: 'T', ast.NotEq: 'T', ast.Eq: 'F',
+                    ast.LtE: 'F'}.get(type(op))
+    return None
+
+
+def r02_12(prog, rep, rid='R02.12'):
+    rep.rule(rid, '_try_allocation returns a true value ("granted") only on '
+             'paths that stored the non-empty result of schedule_task for '
+             "this task as task['slots']: a request which schedule_task "
+             'rejects by raising (per-rank limits) or answers with no slots '
+             'is never reported as granted', minimum=2)
+    base, classes = sched_classes(prog)
+    todo = []
+    for K in [base] + prog.subclasses(base):
+        f = K.methods.get('_try_allocation')
+        if f is not None and f not in todo:
+            todo.append(f)
+    if not todo:
+        raise AnalysisError('_try_allocation not found in %s' % base.name)
+    for f in todo:
+        rep.saw(f)
+        g = cfg_of(f)
+        smap = I.stmt_node_map(g)
+        params = [x for x in f.params if x != 'self']
+        if not params:
+            raise AnalysisError('UNRECOGNISED-IDIOM %s: no task parameter'
+                                % f.where)
+        task = params[0]
+        grants = []
+        for T, V, stmt in slots_stores(f, smap):
+            at = smap.get(id(stmt)) or smap.get(id(T))
+            if at is None or unparse(T) != task:
+                continue
+            src = slots_source(g, T, V, at)
+            if src and src[0] == 'grant':
+                grants.append((at, V))
+        if not grants:
+            raise AnalysisError('UNRECOGNISED-IDIOM %s: the result of '
+                                'self.schedule_task(%s) is not stored as '
+                                "%s['slots'] here" % (f.where, task, task))
+        cut = [e for at, V in grants for e in g.succ[at.id]
+               if e.label != 'exc']
+        # the tests of the stored value
+        nonempty, reads = [], False
+        for at, V in grants:
+            if not isinstance(V, ast.Name):
+                raise AnalysisError('UNRECOGNISED-IDIOM %s: the placement is '
+                                    'stored from an expression (`%s`), not '
+                                    'from a local' % (f.where, short(V, 40)))
+            for n in g.nodes:
+                if n.kind != 'test' or n.ast is None:
+                    continue
+                if not any(isinstance(x, ast.Name) and x.id == V.id
+                           for x in walk(n.ast)):
+                    continue
+                if origin(g, V.id, n.id) != origin(g, V.id, at.id):
+                    continue
+                reads = True
+                lab = _nonempty_edge(n.ast, V.id)
+                if lab:
+                    nonempty.append((n.id, lab))
+        if reads and not nonempty:
+            raise AnalysisError('UNRECOGNISED-IDIOM %s: the placement is '
+                                'tested, but not by a truth / None / length '
+                                'test the recogniser knows' % f.where)
+        # where success is decided: `return <true constant>` or the
+        # assignment of a true constant to the flag that is returned
+        events = []
+        for n in g.stmt_nodes():
+            if n.kind != 'stmt' or not isinstance(n.ast, ast.Return):
+                continue
+            v = n.ast.value
+            if v is None:
+                continue
+            if isinstance(v, ast.Constant):
+                if v.value:
+                    events.append((n, n))
+                continue
+            if isinstance(v, ast.Name):
+                defs = reaching_defs(g, v.id, n.id)
+                if defs and all(isinstance(x, ast.Constant) for d_, x in defs):
+                    for d_, x in defs:
+                        if x.value:
+                            events.append((d_, n))
+                    continue
+            raise AnalysisError('UNRECOGNISED-IDIOM %s: `%s` is neither a '
+                                'constant nor a flag set from constants'
+                                % (f.where, short(n.ast, 50)))
+        if not events:
+            raise AnalysisError('UNRECOGNISED-IDIOM %s: no path returns a '
+                                'true value' % f.where)
+        for ev, ret in events:
+            r = g.reachable(g.entry.id, skip_edges=cut)
+            missed = ev.id in r
+            if missed and ev is not ret:
+                # flag set before the store: the store must follow
+                after = set()
+                for e in g.succ[ev.id]:
+                    if e.label != 'exc':
+                        after |= g.reachable(e.dst, skip_edges=cut)
+                missed = ret.id in after
+            via = ''
+            if missed:
+                hs = [n for n in g.nodes if n.kind == 'handler' and
+                      n.id in r and ev.id in g.reachable(n.id, skip_edges=cut)]
+                if hs:
+                    via = ' (through `%s`, which does not leave by raise / ' \
+                          'return of a false value on every path)' % short(
+                              hs[0].ast, 30).split(':')[0]
+            rep.check(not missed, rid, f,
+                      "%s: `%s` is reached only past the store of the result "
+                      "of schedule_task as %s['slots']" % (f.qual,
+                                                           short(ev.ast, 30),
+                                                           task),
+                      construct='%s:granted-without-placement' % f.qual,
+                      message="%s reports the task as granted (`%s`) on a path "
+                      "that never stored a placement as %s['slots']%s: what "
+                      'schedule_task rejects by raising - the per-rank limit '
+                      'asserts, "does not fit on a single node", "can never '
+                      'be scheduled" - is pushed on for execution without '
+                      'slots instead of being failed'
+                      % (f.qual, short(ev.ast, 30), task, via),
+                      loc=f.loc(ev.ast),
+                      history='2 nodes x 4 cores: task B = 1 rank x 8 cores; '
+                      "schedule_task raises AssertionError('too many threads "
+                      "per proc'), _try_allocation returns True and "
+                      '_schedule_incoming advances B to '
+                      'AGENT_EXECUTING_PENDING with no slots instead of FAILED')
+            if not reads:
+                ok2 = False
+            else:
+                r2 = g.reachable(g.entry.id, skip_edges=nonempty)
+                ok2 = ev.id not in r2
+            rep.check(ok2, rid, f,
+                      '%s: `%s` is reached only past a test that the '
+                      'placement is not empty' % (f.qual, short(ev.ast, 30)),
+                      construct='%s:granted-empty-placement' % f.qual,
+                      message='%s reports the task as granted (`%s`) on a path '
+                      'on which the result of schedule_task was not tested, or '
+                      'was found empty: a task that has to wait is pushed on '
+                      'for execution with no slots' % (f.qual,
+                                                       short(ev.ast, 30)),
+                      loc=f.loc(ev.ast),
+                      history='pilot full, task A arrives: schedule_task '
+                      'returns (None, None), _try_allocation returns True and '
+                      'A is advanced to AGENT_EXECUTING_PENDING with '
+                      "task['slots'] = None")
+
+
+# ------------------------------------------------------------------------------
+# R02.13  the request the scheduler reads is the request the application made.
+# schedule_task sizes the placement from td['ranks'] and the per-rank
+# attributes of REQ (R02.7).  The deprecated spellings of exactly these
+# attributes are translated by TaskDescription._verify; that each alias block
+# leaves the value in its documented replacement is R19.1 of C19 - re-evaluated
+# here (the rule function of c19, not a copy) for the aliases whose
+# replacement is one of the attributes schedule_task reads.
+#
+class _ShapeAliases:
+    """view of a Report which keeps, of what R19.1 says, the obligations about
+    the aliases of the request shape"""
+
+    def __init__(self, rep, olds):
+        self.rep, self.olds, self.seen = rep, set(olds), set()
+
+    def _mine(self, construct):
+        old = str(construct).split(':')[0].strip()
+        if old in self.olds:
+            self.seen.add(old)
+            return True
+        return False
+
+    def rule(self, rid, text, minimum=1):
+        pass
+
+    def saw(self, func):
+        self.rep.saw(func)
+
+    def info(self, *a, **kw):
+        pass
+
+    def ok(self, *a, **kw):
+        pass
+
+    def stat(self, *a, **kw):
+        pass
+
+    def bad(self, rid, where, construct, message, loc=None, history=None,
+            path=None):
+        if not isinstance(construct, str):
+            construct = unparse(construct)
+        if self._mine(construct):
+            return self.rep.bad(rid, where, construct, message, loc, history,
+                                path)
+
+    def check(self, cond, rid, where, what, construct=None, message=None,
+              loc=None, history=None, path=None):
+        if construct is not None and self._mine(construct):
+            return self.rep.check(cond, rid, where, what, construct, message,
+                                  loc, history, path)
+        return bool(cond)
+
+
+def r02_13(prog, rep, rid='R02.13'):
+    from . import c19
+    rep.rule(rid, 'TaskDescription._verify: the deprecated spellings of the '
+             'request shape (cpu_processes, cpu_threads, gpu_processes, '
+             'lfs_per_process, mem_per_process) hand their value to the '
+             'attribute schedule_task reads for it (R19.1 re-evaluated for '
+             'these aliases)', minimum=10)
+    read = set(REQ.values()) | {'ranks'}
+    olds = sorted(o for o, new in c19.ALIAS_SPEC.items() if new in read)
+    if len(olds) != len(read):
+        raise AnalysisError('R02.13: the documented aliases %s do not cover '
+                            'the attributes schedule_task reads (%s)'
+                            % (olds, sorted(read)))
+    view = _ShapeAliases(rep, olds)
+    c19.r19_1(prog, view, rid=rid)
+    missing = sorted(set(olds) - view.seen)
+    if missing:
+        raise AnalysisError('UNRECOGNISED-IDIOM R02.13: no alias block of '
+                            'TaskDescription._verify was evaluated for %s'
+                            % missing)
+
+
+# ------------------------------------------------------------------------------
 #
 def run(prog, rep, tier):
     rep.decided = ('per-node search: a slot is appended only past a "count '
@@ -1763,7 +2381,16 @@ def run(prog, rep, tier):
         'what is left of the list before the cut) has the width of the '
         "slice; what is stored as a task's slots is the result of "
         'schedule_task for that very task or the slots of its own '
-        'description, never the placement of another task.')
+        'description, never the placement of another task; the node is '
+        'looked up in the history entry of the very tag whose presence was '
+        'tested (also when the tag check lives in a local closure or uses '
+        'dict.get); Node.find_slot counts, picks and shares cores / gpus by '
+        'the matching field of the request and feeds lfs / mem / node '
+        'identity of the slot from the request and the node; '
+        '_try_allocation returns a true value only past the store of the '
+        'non-empty result of schedule_task; the deprecated spellings of the '
+        'request shape reach the attributes schedule_task reads (R19.1 '
+        're-evaluated for them).')
     rep.undecided = ('that the indices chosen are the right ones for every '
         'occupancy; numeric adequacy of slots_per_node; R02.3 (the four '
         'per-node asserts) is information only - removing one does not yield '
@@ -1786,6 +2413,18 @@ def run(prog, rep, tier):
         '(UNRECOGNISED-IDIOM)',
         'R02.10: scope AgentSchedulingComponent, Continuous, ContinuousJsrun; '
         'copy / deepcopy / list() of a placement is that placement',
+        'schedule_task is analysed with its local closures inlined (a nested '
+        'def bound once at the top level of the body, never re-bound, used '
+        'only as the callee of plain calls; no defaults / nonlocal / yield): '
+        'a closure reads the enclosing locals at call time, so the call and '
+        'the inlined body mean the same',
+        'R02.11: the request type names its fields n_cores / n_gpus / '
+        'core_occupation / gpu_occupation / lfs / mem (RankRequirements), '
+        'the node its pools self.cores / self.gpus; explicit data flow only',
+        'R02.12: the callers of _try_allocation treat a true result as '
+        '"placed" (base._schedule_incoming, lazy_bisect in '
+        '_schedule_waitpool, continuous_colo / continuous_ordered)',
+        'R02.13: the documented replacements are those of c19.ALIAS_SPEC',
     ]
     rep.attempt(r02_1, prog, rep)
     rep.attempt(r02_2, prog, rep)
@@ -1794,6 +2433,9 @@ def run(prog, rep, tier):
     rep.attempt(r02_6, prog, rep)
     rep.attempt(r02_9, prog, rep)
     rep.attempt(r02_10, prog, rep)
+    rep.attempt(r02_11, prog, rep)
+    rep.attempt(r02_12, prog, rep)
+    rep.attempt(r02_13, prog, rep)
     from .c01 import r02_8
     rep.attempt(r02_8, prog, rep)
     # R02.3 information
@@ -1869,6 +2511,92 @@ _CALL_OLD = "            slots, partition = self.schedule_task(task)\n          
 _APP_OLD = "                    task['slots']     = td['slots']\n"
 _TRY_DEF = ("    # --------------------------------------------------------------------------\n"
             "    #\n    def _try_allocation(self, task):\n")
+
+_N = 'resource_config.py'
+_T = 'task_description.py'
+_ALC_OLD = ("        # what remains to be allocated?  all of it right now.\n"
+            "        alc_slots = list()\n")
+_COLO_OLD = ("            if colo_tag is not None:\n"
+             "                if colo_tag in self._colo_history:\n"
+             "                    if node_index not in self._colo_history[colo_tag]:\n"
+             "                        continue\n"
+             "                # for a new tag check that nodes were not used for previous tags\n"
+             "                else:\n"
+             "                    # `exclusive` -> not to share nodes between different tags\n"
+             "                    is_exclusive = td['tags'].get('exclusive', False)\n"
+             "                    if is_exclusive and node_index in self._tagged_nodes:\n"
+             "                        if len(self.nodes) > len(self._tagged_nodes):\n"
+             "                            continue\n"
+             "                        self._log.warn('not enough nodes for exclusive tags, ' +\n"
+             "                                       'switched \"exclusive\" flag to \"False\"')\n")
+_SKIP_DEF = ("        def skip_node(node_index):\n"
+             "            if colo_tag is None:\n"
+             "                return False\n\n"
+             "            tag_nodes = self._colo_history.get(colo_tag)\n"
+             "            if tag_nodes is not None:\n"
+             "                return node_index not in tag_nodes\n\n"
+             "            is_exclusive = td['tags'].get('exclusive', False)\n"
+             "            if not is_exclusive or node_index not in self._tagged_nodes:\n"
+             "                return False\n\n"
+             "            if len(self.nodes) > len(self._tagged_nodes):\n"
+             "                return True\n\n"
+             "            self._log.warn('not enough nodes for exclusive tags, ' +\n"
+             "                           'switched \"exclusive\" flag to \"False\"')\n"
+             "            return False\n\n")
+_SKIP_USE = "            if skip_node(node_index):\n                continue\n"
+
+_FS_DEF = ("    def find_slot(self, rr: RankRequirements) -> Optional[Slot]:\n\n"
+           "        with self.__lock__:\n\n            cores = list()\n")
+_FS_HELPER = ("    @staticmethod\n"
+              "    def _find_ros(ros, n, occupation):\n\n"
+              "        found = list()\n"
+              "        for ro in ros:\n"
+              "            if ro.occupation is DOWN:\n"
+              "                continue\n"
+              "            if occupation <= BUSY - ro.occupation:\n"
+              "                found.append(RO(index=ro.index, occupation=occupation))\n"
+              "            if len(found) == n:\n"
+              "                break\n\n"
+              "        if len(found) < n:\n"
+              "            return None\n\n"
+              "        return found\n\n\n"
+              "    # --------------------------------------------------------------------------\n"
+              "    #\n")
+_FS_CORES = ("                for ro in self.cores:\n"
+             "                    if ro.occupation is DOWN:\n"
+             "                        continue\n"
+             "                    if rr.core_occupation <= BUSY - ro.occupation:\n"
+             "                        cores.append(RO(index=ro.index,\n"
+             "                                        occupation=rr.core_occupation))\n"
+             "                    if len(cores) == rr.n_cores:\n"
+             "                        break\n\n"
+             "                if len(cores) < rr.n_cores:\n"
+             "                    return None\n")
+_FS_GPUS = ("                for ro in self.gpus:\n"
+            "                    if ro.occupation is DOWN:\n"
+            "                        continue\n"
+            "                    if rr.gpu_occupation <= BUSY - ro.occupation:\n"
+            "                        gpus.append(RO(index=ro.index,\n"
+            "                                       occupation=rr.gpu_occupation))\n"
+            "                    if len(gpus) == rr.n_gpus:\n"
+            "                        break\n\n"
+            "                if len(gpus) < rr.n_gpus:\n"
+            "                    return None\n")
+
+
+def _fs_shared(gpu_args='self.gpus, rr.n_gpus, rr.gpu_occupation'):
+    """Node.find_slot with the two pick loops extracted into one static
+    helper (seeds C02-r4 / C02-r8)"""
+    return [(_N, _FS_DEF, _FS_HELPER + _FS_DEF),
+            (_N, _FS_CORES,
+             "                cores = self._find_ros(self.cores, rr.n_cores,\n"
+             "                                       rr.core_occupation)\n"
+             "                if cores is None:\n                    return None\n"),
+            (_N, _FS_GPUS,
+             "                gpus = self._find_ros(%s)\n"
+             "                if gpus is None:\n                    return None\n"
+             % gpu_args)]
+
 
 MUTATIONS = [
     dict(name='R02.1 short-cores test off by one', rules=('R02.1',), edits=[
@@ -1967,6 +2695,59 @@ MUTATIONS = [
         (_B, _APP_OLD, "                    task['slots']     = tasks[0]['description']['slots']\n")]),
     dict(name='R02.10 failed search falls back to the placement found for another task', rules=('R02.10',), edits=[
         (_B, _CALL_OLD, "            slots, partition = self.schedule_task(task)\n            if not slots and self._last:\n                slots, partition = self.schedule_task(self._last)\n            if not slots:\n")]),
+    dict(name='R02.5 membership looked up in the union of all tags (seed C02-g2)', rules=('R02.5',), edits=[
+        (_C, "                    if node_index not in self._colo_history[colo_tag]:", "                    if node_index not in self._tagged_nodes:")]),
+    dict(name='R02.5 jsrun: same, the union hoisted into a local', rules=('R02.5',), edits=[
+        (_J, "                    if node_index not in self._colo_history[colo_tag]:", "                    used = self._tagged_nodes\n                    if node_index not in used:")]),
+    dict(name='R02.5 membership looked up under the key of the partition, not of the tag', rules=('R02.5',), edits=[
+        (_C, "                    if node_index not in self._colo_history[colo_tag]:", "                    if node_index not in self._colo_history.get(str(partition_id), []):")]),
+    dict(name='R02.5 tag check as a local closure (seed C02-r7) which looks at the union of all tags', rules=('R02.5',), edits=[
+        (_C, _ALC_OLD, _SKIP_DEF.replace("return node_index not in tag_nodes", "return node_index not in self._tagged_nodes") + _ALC_OLD),
+        (_C, _COLO_OLD, _SKIP_USE)]),
+    dict(name='R02.5 tag check as a local closure with the polarity flipped', rules=('R02.5',), edits=[
+        (_C, _ALC_OLD, _SKIP_DEF.replace("return node_index not in tag_nodes", "return node_index in tag_nodes") + _ALC_OLD),
+        (_C, _COLO_OLD, _SKIP_USE)]),
+    dict(name='R02.11 find_slot: GPU picking stops at the core count (seed C02-g4)', rules=('R02.11',), edits=[
+        (_N, "                    if len(gpus) == rr.n_gpus:", "                    if len(gpus) == rr.n_cores:")]),
+    dict(name='R02.11 find_slot: both GPU count tests use the core count', rules=('R02.11',), edits=[
+        (_N, "                    if len(gpus) == rr.n_gpus:", "                    if len(gpus) == rr.n_cores:"),
+        (_N, "                if len(gpus) < rr.n_gpus:", "                if len(gpus) < rr.n_cores:")]),
+    dict(name='R02.11 find_slot: core count tests use the GPU count through a local', rules=('R02.11',), edits=[
+        (_N, "                for ro in self.cores:\n", "                need = rr.n_gpus\n                for ro in self.cores:\n"),
+        (_N, "                    if len(cores) == rr.n_cores:", "                    if len(cores) == need:"),
+        (_N, "                if len(cores) < rr.n_cores:", "                if len(cores) < need:")]),
+    dict(name='R02.11 find_slot: short GPU list is not refused', rules=('R02.11',), edits=[
+        (_N, "                if len(gpus) < rr.n_gpus:\n                    return None\n", "")]),
+    dict(name='R02.11 find_slot: GPUs entered with the core share', rules=('R02.11',), edits=[
+        (_N, "                                       occupation=rr.gpu_occupation))", "                                       occupation=rr.core_occupation))")]),
+    dict(name='R02.11 find_slot: GPUs picked from the core pool', rules=('R02.11',), edits=[
+        (_N, "                for ro in self.gpus:", "                for ro in self.cores:")]),
+    dict(name='R02.11 find_slot: slot carries mem as lfs', rules=('R02.11',), edits=[
+        (_N, "            slot = Slot(cores=cores, gpus=gpus, lfs=rr.lfs, mem=rr.mem,", "            slot = Slot(cores=cores, gpus=gpus, lfs=rr.mem, mem=rr.mem,")]),
+    dict(name='R02.12 handler of _try_allocation no longer re-raises (seed C02-g5)', rules=('R02.12',), edits=[
+        (_B, "            task['exception_detail'] = '\\n'.join(ru.get_exception_trace())\n            raise\n\n        return True\n", "            task['exception_detail'] = '\\n'.join(ru.get_exception_trace())\n\n        return True\n")]),
+    dict(name='R02.12 handler re-raises only when nothing is running', rules=('R02.12',), edits=[
+        (_B, "            task['exception_detail'] = '\\n'.join(ru.get_exception_trace())\n            raise\n\n        return True\n", "            task['exception_detail'] = '\\n'.join(ru.get_exception_trace())\n            if self._active_cnt == 0:\n                raise\n\n        return True\n")]),
+    dict(name='R02.12 a task that has to wait is reported as granted', rules=('R02.12',), edits=[
+        (_B, "                return False\n\n            self._active_cnt += 1\n", "                return True\n\n            self._active_cnt += 1\n")]),
+    dict(name='R02.12 empty result falls through to the grant', rules=('R02.12',), edits=[
+        (_B, "                return False\n\n            self._active_cnt += 1\n", "            self._active_cnt += 1\n")]),
+    dict(name='R02.12 success decided by a flag that is set before the try', rules=('R02.12',), edits=[
+        (_B, "        try:\n            uid = task['uid']\n", "        granted = True\n        try:\n            uid = task['uid']\n"),
+        (_B, "            task['exception_detail'] = '\\n'.join(ru.get_exception_trace())\n            raise\n\n        return True\n", "            task['exception_detail'] = '\\n'.join(ru.get_exception_trace())\n\n        return granted\n")]),
+    dict(name='R02.13 mem_per_process translated from lfs_per_process (seed C02-g6)', rules=('R02.13',), edits=[
+        (_T, "            self.mem_per_rank = self.mem_per_process\n", "            self.mem_per_rank = self.lfs_per_process\n")]),
+    dict(name='R02.13 cpu_threads lands in gpus_per_rank', rules=('R02.13',), edits=[
+        (_T, "            self.cores_per_rank = self.cpu_threads\n", "            self.gpus_per_rank = self.cpu_threads\n")]),
+    dict(name='R02.13 lfs_per_process cleared before it is copied', rules=('R02.13',), edits=[
+        (_T, "            self.lfs_per_rank = self.lfs_per_process\n            self.lfs_per_process = 0\n", "            self.lfs_per_process = 0\n            self.lfs_per_rank = self.lfs_per_process\n")]),
+    dict(name='R02.11 find_slot: shared pick helper called with the core count for the GPUs', rules=('R02.11', 'R02.S'),
+         edits=_fs_shared('self.gpus, rr.n_cores, rr.gpu_occupation'),
+         note='R02.11 cannot see the picks in the tree as it is (abstains) and reports in both normalised views; '
+              'the shared sibling rule R02.S reports in all three, so the consensus verdict carries R02.S'),
+    dict(name='R02.11 find_slot: shared pick helper called with the core pool for the GPUs', rules=('R02.11', 'R02.S'),
+         edits=_fs_shared('self.cores, rr.n_gpus, rr.gpu_occupation'),
+         note='as above'),
 ]
 
 SILENT = [
@@ -2038,4 +2819,43 @@ SILENT = [
         (_B, _APP_OLD, "                    task['slots']     = task['description']['slots']\n")]),
     dict(name='application-supplied slots hoisted into a local and copied', edits=[
         (_B, "                if td.get('slots'):\n\n" + _APP_OLD, "                supplied = td.get('slots')\n                if supplied:\n\n                    task['slots']     = copy.deepcopy(supplied)\n")]),
+    dict(name='tag check as a local closure in early-return form with dict.get (seed C02-r7)', edits=[
+        (_C, _ALC_OLD, _SKIP_DEF + _ALC_OLD), (_C, _COLO_OLD, _SKIP_USE)]),
+    dict(name='tag check as a local closure in positive form (`if not eligible(..): continue`)', edits=[
+        (_C, _ALC_OLD, "        def eligible(idx):\n            if colo_tag is None:\n                return True\n            if colo_tag in self._colo_history:\n                return idx in self._colo_history[colo_tag]\n            excl = td['tags'].get('exclusive', False)\n            if excl and idx in self._tagged_nodes:\n                if len(self.nodes) > len(self._tagged_nodes):\n                    return False\n                self._log.warn('not enough nodes for exclusive tags, ' +\n                               'switched \"exclusive\" flag to \"False\"')\n            return True\n\n" + _ALC_OLD),
+        (_C, _COLO_OLD, "            if not eligible(node_index):\n                continue\n")]),
+    dict(name='history entry of the tag hoisted into a local', edits=[
+        (_J, "                    if node_index not in self._colo_history[colo_tag]:", "                    recorded = self._colo_history[colo_tag]\n                    if node_index not in recorded:")]),
+    dict(name='history looked up once with dict.get, None-test instead of `in`', edits=[
+        (_C, "                if colo_tag in self._colo_history:\n                    if node_index not in self._colo_history[colo_tag]:\n                        continue\n", "                tag_nodes = self._colo_history.get(colo_tag)\n                if tag_nodes is not None:\n                    if node_index not in tag_nodes:\n                        continue\n")]),
+    dict(name='partial ladder collapsed into one expression (seed C02-r7)', edits=[
+        (_C, "            if not mpi:\n                # non-mpi tasks are never partially allocated\n                partial = False\n\n            elif is_first or self._scattered or is_last:\n                # we allow partial nodes on the first and last node,\n                # and on any node if a 'scattered' allocation is requested.\n                partial = True\n\n            else:\n                partial = False\n", "            partial = bool(mpi and (is_first or self._scattered or is_last))\n")]),
+    dict(name='find_slot: GPU bound hoisted into a local, stop test as >=', edits=[
+        (_N, "                for ro in self.gpus:\n", "                need = rr.n_gpus\n                for ro in self.gpus:\n"),
+        (_N, "                    if len(gpus) == rr.n_gpus:", "                    if len(gpus) >= need:"),
+        (_N, "                if len(gpus) < rr.n_gpus:", "                if need > len(gpus):")]),
+    dict(name='find_slot: pool aliased, entry built in a local before it is appended', edits=[
+        (_N, "                for ro in self.gpus:\n", "                pool = self.gpus\n                for ro in pool:\n"),
+        (_N, "                        gpus.append(RO(index=ro.index,\n                                       occupation=rr.gpu_occupation))\n", "                        entry = RO(index=ro.index,\n                                   occupation=rr.gpu_occupation)\n                        gpus.append(entry)\n")]),
+    dict(name='find_slot: share guard in early-continue form', edits=[
+        (_N, "                    if rr.core_occupation <= BUSY - ro.occupation:\n                        cores.append(RO(index=ro.index,\n                                        occupation=rr.core_occupation))\n", "                    if rr.core_occupation > BUSY - ro.occupation:\n                        continue\n                    cores.append(RO(index=ro.index,\n                                    occupation=rr.core_occupation))\n")]),
+    dict(name='find_slot: lfs / mem / node identity of the slot through locals', edits=[
+        (_N, "            slot = Slot(cores=cores, gpus=gpus, lfs=rr.lfs, mem=rr.mem,\n                        node_index=self.index, node_name=self.name)\n", "            lfs, mem = rr.lfs, rr.mem\n            here     = self.index\n            slot = Slot(cores=cores, gpus=gpus, lfs=lfs, mem=mem,\n                        node_index=here, node_name=self.name)\n")]),
+    dict(name='_try_allocation: success returned from inside the try block', edits=[
+        (_B, "            self._prof.prof('schedule_ok', uid=uid)\n\n        except Exception as e:", "            self._prof.prof('schedule_ok', uid=uid)\n            return True\n\n        except Exception as e:")]),
+    dict(name='_try_allocation: result flag set after the store and returned', edits=[
+        (_B, "            self._prof.prof('schedule_ok', uid=uid)\n\n        except Exception as e:", "            self._prof.prof('schedule_ok', uid=uid)\n            granted = True\n\n        except Exception as e:"),
+        (_B, "            task['exception_detail'] = '\\n'.join(ru.get_exception_trace())\n            raise\n\n        return True\n", "            task['exception_detail'] = '\\n'.join(ru.get_exception_trace())\n            raise\n\n        return granted\n")]),
+    dict(name='_try_allocation: emptiness test spelled `is None or len() == 0`', edits=[
+        (_B, "            slots, partition = self.schedule_task(task)\n            if not slots:\n", "            slots, partition = self.schedule_task(task)\n            if slots is None or len(slots) == 0:\n")]),
+    dict(name='_try_allocation: handler re-raises the bound exception', edits=[
+        (_B, "            task['exception_detail'] = '\\n'.join(ru.get_exception_trace())\n            raise\n\n        return True\n", "            task['exception_detail'] = '\\n'.join(ru.get_exception_trace())\n            raise e\n\n        return True\n")]),
+    dict(name='_verify: mem_per_process copied through a local', edits=[
+        (_T, "            self.mem_per_rank = self.mem_per_process\n            self.mem_per_process = 0\n", "            value = self.mem_per_process\n            self.mem_per_process = 0\n            self.mem_per_rank = value\n")]),
+    dict(name='_verify: lfs_per_process alias block in subscript spelling', edits=[
+        (_T, "        if self.lfs_per_process:\n            self.lfs_per_rank = self.lfs_per_process\n            self.lfs_per_process = 0", "        if self.get('lfs_per_process'):\n            self['lfs_per_rank'] = self['lfs_per_process']\n            self['lfs_per_process'] = 0")]),
+    dict(name='_verify: gpu_processes converted by int-then-float', edits=[
+        (_T, "            self.gpus_per_rank = float(self.gpu_processes)\n", "            n_gpus = self.gpu_processes\n            self.gpus_per_rank = float(n_gpus)\n")]),
+    dict(name='find_slot: the two pick loops extracted into one static helper (seeds C02-r4, C02-r8)',
+         edits=_fs_shared()),
 ]
